@@ -161,13 +161,13 @@ PROPS['C14'] = dict(
 PROPS['C11'] = dict(
     title='Printed statistics and listings describe the printed matching',
     functions=[MOD + f for f in ('_get_max_rank', '_get_cost', '_get_cost_sq', '_get_degree', '_get_profile', '_get_lec_abs_diffs', '_get_max_lec_abs_diff',
-                                 '_get_sum_lec_abs_diff', '_get_matching_string', '_get_matching_size', '_get_pair_assignments', 'get_results')],
+                                 '_get_sum_lec_abs_diff', '_get_matching_string', '_get_matching_size', '_get_pair_assignments', 'get_results', '_get_detailed_student_info')],
     lemmas=['SUM/ext', 'LISTSET/empty-append', 'LISTSET/iterate'], level='other',
     level_text='statistic helpers verified against the measures of the property statement for every list of matched pairs (sums, counts per rank / lecturer, maxima with witnesses; lecturer cost 0 when a pair has no lecturer rank); the matching line has one blank-separated entry per student = project of that student\'s matched pair or 0; Model.get_results prints size / cost / degree equal to the helper results for the list read back from the solution, in both formats.  NOT proved deductively (bounded stand-in): the exact text layout of the profile string and of the three long-format listings (_get_profile_string and _get_detailed_* are modelled as pure text functions)',
     harness=True, bound='<= 4 students x <= 3 projects x <= 3 lecturers, 0-2 criteria, short and long format',
     budget={'quick': 20, 'thorough': 300},
     trusted=['T3 reported values are integral', 'T5/T6 str(int) name model'],
-    assumptions=['layout of profile string and long-format listings: bounded stand-in only'])
+    assumptions=['long format: the per-student listing is verified (one line per student in student order, showing the student, project and lecturer numbers of that student\'s matched pair, or "no assignment"; lines are strings of a fixed template with integer holes, T5); the per-project and per-lecturer listings and the layout of the profile string: bounded stand-in only'])
 PROPS['C10'] = dict(
     title='The solver reads an instance file as the instance the file denotes',
     functions=[FIO + '_get_simple_pref_list_and_ranks', FIO + '_create_pairs_row', FIO + '_create_student_ranks', FIO + '_set_lecturers', FIO + '_set_lecturer_ranks',
